@@ -217,3 +217,57 @@ pub fn scaled(n: usize) -> usize {
     let pct = std::env::var("VERIF_SCALE_PCT").ok().and_then(|s| s.parse::<usize>().ok()).unwrap_or(100);
     (n * pct / 100).max(1)
 }
+
+/// `VERIF_THRESHOLDS=16,128,…` : integer constants that are new in a changed source file (tools/fingerprint.py);
+/// the generators add inputs on both sides of each (capped at `cap`)
+pub fn thresholds(cap: usize) -> Vec<usize> {
+    std::env::var("VERIF_THRESHOLDS")
+        .ok()
+        .map(|s| s.split(',').filter_map(|x| x.trim().parse::<usize>().ok()).filter(|t| *t >= 3 && *t <= cap).collect())
+        .unwrap_or_default()
+}
+/// t-1, t, t+1 for every threshold
+pub fn around_thresholds(cap: usize) -> Vec<usize> {
+    let mut v = vec![];
+    for t in thresholds(cap) {
+        v.extend([t - 1, t, t + 1]);
+    }
+    v.sort();
+    v.dedup();
+    v
+}
+
+/// membership of every grid point 0..=top in a segment list, in one pass per segment (the reference oracle's
+/// `segs_contain` for all points at once; segments need not be sorted or disjoint)
+pub fn membership(segs: &[Seg], top: u32) -> Vec<bool> {
+    let mut m = vec![false; top as usize + 1];
+    for (s, e) in segs {
+        let lo: u64 = match s {
+            Included(x) => *x as u64,
+            Excluded(x) => *x as u64 + 1,
+            Unbounded => 0,
+        };
+        let hi: i64 = match e {
+            Included(x) => *x as i64,
+            Excluded(x) => *x as i64 - 1,
+            Unbounded => top as i64,
+        };
+        let hi = hi.min(top as i64);
+        let mut g = lo as i64;
+        while g <= hi {
+            m[g as usize] = true;
+            g += 1;
+        }
+    }
+    m
+}
+
+/// run `f` with the `log` sink switched off (the scale / deep / soak runs: formatting every log line of a run
+/// over tens of thousands of packages is quadratic)
+pub fn quiet<T>(f: impl FnOnce() -> T) -> T {
+    let prev = log::max_level();
+    log::set_max_level(log::LevelFilter::Off);
+    let r = f();
+    log::set_max_level(prev);
+    r
+}
